@@ -13,6 +13,7 @@ import DimodProofs.DqmIneq
 import DimodProofs.CqmSlackFresh
 import DimodProofs.InverterOnto
 import DimodProofs.InverterOnto2
+import DimodProofs.PenaltyOpts
 
 /-! # C16 — constraint-to-penalty conversions penalise exactly the violating assignments
 
@@ -491,5 +492,143 @@ example : ineqPlan [2, -6, 2] 1 (-1) 9223372036854775807 = .slack 4 (-2) 6 := by
 example : Reps (slackLog2 6) 5 := (slack_covers 6 (by decide) 5).2 (by decide)
 example : binaryEncoding (.str "i") 6 = some [(.tup [.str "i", .int 1], 1), (.tup [.str "i", .int 2], 2), (.tup [.str "i", .int 3, .str "msb"], 3)] := by
   decide +kernel
+
+end C16
+
+/-! ## Round 7: the slack count as the source computes it, `cross_zero`, `penalization_method`
+
+`harness/translators/slack_rule.py` extracts from the three sources how `floor(log2 S)` is computed (`num_slack` of both
+`add_linear_inequality_constraint`s, `max_pow` of `binary_encoding`), the remainder rule, the coefficient and guards of the
+extra `cross_zero` variable, the method dispatch and the parameter defaults into `Generated.SlackRule`; the theorems below are
+stated over these constants.  With the float pipeline (`int(np.floor(np.log2(S)))`, `math.floor(math.log2(ub))`) the count is
+one too large for `S` just below `2^k`, `k ≥ 50` (genuine defect D65g, repaired: `S.bit_length() - 1`). -/
+
+namespace C16
+open Pen Generated.SlackRule
+
+/-- **the slack / bit count of the source is the exact one**, and over it the three coefficient lists are the modelled
+    ones — whatever the (unmodelled) float `log2` `fl` would have returned -/
+theorem slack_count_rule_from_source :
+    bqmNumSlack = .bitLength ∧ dqmNumSlack = .bitLength ∧ encMaxPow = .bitLength ∧
+    (∀ (fl : Nat → Nat) (S : Nat), 1 ≤ S → slackLog2Bqm fl S = slackLog2 S ∧ slackLog2Dqm fl S = slackLog2 S) ∧
+    (∀ (fl : Nat → Nat) (v : Label) (ub : Nat) (l : List (Label × Nat)), 2 ≤ ub → binaryEncoding v ub = some l →
+      encCoeffs fl ub = l.map (fun p => ((p.2 : Nat) : Int))) :=
+  ⟨by decide, by decide, by decide, fun fl S hS => ⟨slackLog2Bqm_eq fl S hS, slackLog2Dqm_eq fl S hS⟩,
+    fun fl v ub l h2 hl => encCoeffs_eq fl v ub h2 l hl⟩
+
+/-- **which counts `n` are right** for `slack_coefficients = [2**j for j in range(n)] (+ [S − 2**n + 1] if S ≥ 2**n)`:
+    `n = floor(log2 S)` gives exactly `0..S`; `n = floor(log2 S) + 1` still gives exactly `0..S` when `S = 2^n − 1`
+    (no remainder, the powers alone); for every other overshoot (`S + 1 < 2^n`) the total `S + 1` is reachable, i.e. a
+    violation by one is absorbed by the slack -/
+theorem slack_count_characterised (n S : Nat) :
+    (2^n ≤ S → S < 2^(n+1) → ∀ t, Reps (slackCoeffsBy n S) t ↔ t ≤ S) ∧
+    (S + 1 = 2^n → ∀ t, Reps (slackCoeffsBy n S) t ↔ t ≤ S) ∧
+    (S + 1 < 2^n → Reps (slackCoeffsBy n S) (S + 1)) :=
+  ⟨fun h1 h2 t => coeffs_cover_exact n S h1 h2 t, fun h t => coeffs_cover_pow_pred n S h t, coeffs_overshoot n S⟩
+
+/-- D65g, the concrete instance: `S = 2^50 − 2`, for which the float pipeline returns 50 (`Nat.log2 S = 49`): the slack
+    reaches `S + 1`, and `binary_encoding(v, 2^50 − 2)` gets a most significant coefficient `≤ 0` (it is `−1`) -/
+theorem float_log2_overshoot_witness :
+    Nat.log2 (2^50 - 2) = 49 ∧ Reps (slackCoeffsBy 50 (2^50 - 2)) (2^50 - 2 + 1) ∧
+    (∃ c ∈ encCoeffsBy 50 (2^50 - 2), c ≤ 0) ∧ ¬ (2^50 - 2 + 1 ≤ 2^50 - 2) :=
+  ⟨by decide +kernel, coeffs_overshoot 50 (2^50 - 2) (by decide +kernel), enc_overshoot_nonpos 50 (2^50 - 2) (by decide +kernel),
+    by decide +kernel⟩
+
+/-- **`cross_zero=True` as coded (BQM)**: the returned slack terms are the plain ones plus — exactly when `lb_c > 0` —
+    one variable `slack_<label>_<num_slack+1>` with coefficient `ub_c − S = lb_c`; the totals the slack terms can then take
+    are `0..S` and `a..S+a` (`a` the extra coefficient), so the penalty vanishes for `Σ aᵢxᵢ ∈ [lb_c, ub_c] ∪ [0, S]` -/
+theorem cross_zero_bqm_as_coded (label : String) (ubc lbc : Int) (S : Nat) :
+    bqmSlack label ubc lbc S true =
+      bqmSlack label ubc lbc S false ++
+        (if zeroConstraintBy bqmZeroNeedsPositive true ubc lbc S then
+          [(Label.str s!"slack_{label}_{Nat.log2 S + 1}", zeroCoefBy bqmZeroCoef ubc S)] else []) ∧
+    (∀ a t, 1 ≤ S → (Reps (slackLog2 S ++ [a]) t ↔ t ≤ S ∨ (a ≤ t ∧ t ≤ S + a))) :=
+  ⟨bqmSlack_cross label ubc lbc S, fun a t hS => cross_zero_values S hS a t⟩
+
+/-- the documented meaning of `cross_zero` ("adds zero to the domain of constraint") is NOT what the BQM method does
+    (open finding D66g): `5 ≤ a + 2b + 3c + 4d ≤ 8` with `cross_zero=True` returns the slack coefficients `[1, 2, 5]`
+    and the sum `2` (neither `0` nor in `5..8`) is absorbed by the slack total `6 = 1 + 5` -/
+theorem cross_zero_accepts_between_witness :
+    ineqPlan [1, 2, 3, 4] 0 5 8 = .slack 8 5 3 ∧ (bqmSlack "c" 8 5 3 true).map (·.2) = [1, 2, 5] ∧
+    Reps [1, 2, 5] (8 - 2) ∧ ¬ (5 ≤ 2) ∧ 2 ≠ 0 :=
+  ⟨by decide, by decide +kernel, ⟨[true, false, true], rfl, rfl⟩, by decide, by decide⟩
+
+/-- **`penalization_method='unbalanced'` as coded** (the always-satisfied / infeasible exits come first; nothing is
+    returned; energy added `λ₀·Σaᵢzᵢ − ub_c + λ₁·(Σaᵢzᵢ − ub_c)²`, `ub_c = min(Σ⁺, ub − c)`) -/
+theorem unbalanced_as_coded (label : String) (terms : List (Label × Int)) (l0 l1 : Rat) (c lb ub : Int) (cross : Bool) :
+    match bqmIneqFull label terms (.pair l0 l1) c lb ub cross .unbalanced with
+    | .skipped => ∀ z, Bin01 z → Feasible z terms c lb ub
+    | .infeasible => ∀ z, Bin01 z → ¬ Feasible z terms c lb ub
+    | .typeError => False
+    | .badMethod => False
+    | .ok bag sl => sl = [] ∧ ∀ z, Bin01 z →
+        evalBag (toRat z) bag =
+          l0 * ((isum z terms : Int) : Rat) - ((min (sumPos (terms.map (·.2))) (ub - c) : Int) : Rat)
+            + l1 * (((isum z terms - min (sumPos (terms.map (·.2))) (ub - c)) * (isum z terms - min (sumPos (terms.map (·.2))) (ub - c)) : Int) : Rat) :=
+  Pen.unbalanced_as_coded label terms l0 l1 c lb ub cross
+
+/-- the method dispatch as coded: skip / infeasible whatever the method; unknown method and wrong multiplier shape are
+    refused only after them; `'slack'` with a number is `bqmIneq` (to which `bqm_inequality_as_coded` applies) -/
+theorem penalization_method_dispatch (label : String) (terms : List (Label × Int)) (lam : Lagrange) (c lb ub : Int) (cross : Bool) (m : PMethod) :
+    (ineqPlan (terms.map (·.2)) c lb ub = .skip → bqmIneqFull label terms lam c lb ub cross m = .skipped) ∧
+    (ineqPlan (terms.map (·.2)) c lb ub = .infeasible → bqmIneqFull label terms lam c lb ub cross m = .infeasible) ∧
+    (ineqPlan (terms.map (·.2)) c lb ub ≠ .skip → ineqPlan (terms.map (·.2)) c lb ub ≠ .infeasible →
+      (∀ name, m = .other name → bqmIneqFull label terms lam c lb ub cross m = .badMethod) ∧
+      (∀ l, lam = .scalar l → m = .unbalanced → bqmIneqFull label terms lam c lb ub cross m = .typeError) ∧
+      (∀ l bag sl, lam = .scalar l → m = .slack → bqmIneq label terms l c lb ub cross = .ok bag sl →
+        bqmIneqFull label terms lam c lb ub cross m = .ok bag sl)) :=
+  Pen.method_dispatch label terms lam c lb ub cross m
+
+/-- **the energy the BQM method adds, as coded, for either value of `cross_zero`**: `λ·(Σaᵢzᵢ + Σbⱼsⱼ − ub_c)²` over the
+    returned slack terms `(sⱼ, bⱼ)` at every 0/1 sample — with `cross_zero_bqm_as_coded` this says exactly which sums get
+    penalty 0 when `cross_zero=True`: `[lb_c, ub_c]` and (if the extra variable was created) `[0, S]` -/
+theorem inequality_energy_as_coded_any_cross (label : String) (terms : List (Label × Int)) (lam : Rat) (c lb ub : Int) (cross : Bool) :
+    match bqmIneq label terms lam c lb ub cross with
+    | .ok bag sl => ∀ z, Bin01 z →
+        evalBag (toRat z) bag = lam * (((isum z terms + isum z sl - min (sumPos (terms.map (·.2))) (ub - c))
+          * (isum z terms + isum z sl - min (sumPos (terms.map (·.2))) (ub - c)) : Int) : Rat)
+    | _ => True :=
+  Pen.bqmIneq_energy label terms lam c lb ub cross
+
+/-- `cross_zero=True` as coded for the DQM log2 method: one more two-case variable whose case 1 carries `ub_c` (not
+    `ub_c − S`), created whenever `lb_c > 0 or ub_c < 0` (no inner guard) — over the extracted constants -/
+theorem cross_zero_dqm_as_coded (label : String) (ubc lbc : Int) (S : Nat) :
+    (dqmSlack label "log2" ubc lbc S true).map (fun v => (v.label, v.ncases, v.cases)) =
+      (dqmSlack label "log2" ubc lbc S false).map (fun v => (v.label, v.ncases, v.cases)) ++
+        (if zeroConstraintBy dqmZeroNeedsPositive true ubc lbc S then
+          [(s!"slack_{label}_{Nat.log2 S + 1}", 2, [(1, zeroCoefBy dqmZeroCoef ubc S)])] else []) :=
+  Pen.dqmSlack_cross_labels label ubc lbc S
+
+/-- **which sums `cross_zero=True` lets through, as coded** (BQM method, `λ > 0`): with the slack coefficients
+    `slackLog2 S ++ [a]` on pairwise distinct fresh labels (what `cross_zero_bqm_as_coded` says is returned, `a = ub_c − S = lb_c`),
+    the slack bits — and only they — can be set so that the added energy is 0 iff `Σaᵢzᵢ ∈ [ub_c − S, ub_c]` or
+    `Σaᵢzᵢ ∈ [ub_c − S − a, ub_c − a]`; for `a = lb_c` the second interval is `[0, S]` (the documented meaning would be `{0}`) -/
+theorem cross_zero_penalty_zero_iff (terms : List (Label × Int)) (lam : Rat) (hlam : 0 < lam) (ubc : Int) (S a : Nat) (hS : 1 ≤ S)
+    (ls : List Label) (hlen : ls.length = (slackLog2 S ++ [a]).length) (hnd : ls.Nodup) (hfresh : ∀ t ∈ terms, t.1 ∉ ls)
+    (z : Label → Int) (hz : Bin01 z) :
+    (∃ z', Bin01 z' ∧ (∀ v, v ∉ ls → z' v = z v) ∧
+      evalBag (toRat z') (eqTermsCy .binary (castTerms (terms ++ ls.zip ((slackLog2 S ++ [a]).map Int.ofNat))) lam (((-ubc : Int)) : Rat)) = 0)
+    ↔ (ubc - S ≤ isum z terms ∧ isum z terms ≤ ubc) ∨ (ubc - S - a ≤ isum z terms ∧ isum z terms ≤ ubc - a) :=
+  Pen.cross_zero_penalty_zero_iff terms lam hlam ubc S a hS ls hlen hnd hfresh z hz
+
+/-- the hypotheses are met by the witness constraint `5 ≤ a + 2b + 3c + 4d ≤ 8`, `cross_zero=True`: labels as returned -/
+example : ([Label.str "slack_c_0", .str "slack_c_1", .str "slack_c_2"].length = (slackLog2 3 ++ [5]).length) ∧
+    [Label.str "slack_c_0", .str "slack_c_1", .str "slack_c_2"].Nodup ∧
+    (∀ t ∈ [(Label.str "a", (1 : Int)), (.str "b", 2), (.str "c", 3), (.str "d", 4)],
+      t.1 ∉ [Label.str "slack_c_0", .str "slack_c_1", .str "slack_c_2"]) ∧
+    (bqmSlack "c" 8 5 3 true).map (·.1) = [Label.str "slack_c_0", .str "slack_c_1", .str "slack_c_2"] := by
+  decide +kernel
+
+/-- the extracted option surface: methods, defaults (`lb = int64 min` stands for −∞), coefficient / guard of `cross_zero` in
+    the two implementations (they DIFFER: BQM `ub_c − S` guarded by `> 0`, DQM `ub_c` unguarded) -/
+theorem inequality_options_from_source :
+    penalizationMethods = ["slack", "unbalanced"] ∧ defaultLb = -9223372036854775808 ∧ defaultUb = 0 ∧
+    defaultConstant = 0 ∧ defaultCrossZero = false ∧
+    bqmZeroCoef = .ubcMinusS ∧ bqmZeroNeedsPositive = true ∧ dqmZeroCoef = .ubc ∧ dqmZeroNeedsPositive = false := by
+  decide
+
+/-- a constraint that is neither always satisfied nor infeasible (the `.ok` branch of the two theorems above) -/
+example : ineqPlan [1, 2, 3] 0 2 4 = .slack 4 2 2 ∧ ineqPlan [1, 2, 3] 0 2 4 ≠ .skip ∧ ineqPlan [1, 2, 3] 0 2 4 ≠ .infeasible := by
+  decide
 
 end C16
